@@ -202,6 +202,18 @@ def run(ctx):
                 a = pyref.parse_answer(t, parser=pr)
                 evals += 1
                 nontriv += 1 if any(x.startswith(b":") for x in toks) else 0
+                if kind == "valid":
+                    last_valid = t
+                if kind == "norequire":
+                    # the same use without its `require`, through a Parser object that has just parsed the version WITH it: what an
+                    # earlier script required does not count for the next one
+                    pr2 = Parser()
+                    pr2.parse(last_valid)
+                    a2 = pyref.parse_answer(t, parser=pr2)
+                    evals += 1
+                    if a2 != a:
+                        viol.append({"definition": wire, "input_hex": t.hex(), "input": t.decode("latin-1"), "history_hex": [last_valid.hex()],
+                                     "what": "through a Parser that parsed the script with its require just before: %s; through a fresh Parser: %s" % (a2[:100], a[:100])})
                 if a != m_parse:
                     diffs.append({"suite": "parse-custom", "definition": wire, "input_hex": t.hex(), "input": t.decode("latin-1"), "impl": a[:300], "model": m_parse[:300]})
                 acc = a.startswith("accept")
